@@ -277,6 +277,16 @@ def corpus():
              ops=[['read', 'query'], ['set_qs', S('%zz=1&a'), None], ['read', 'query'], ['read', 'params'],
                   ['set_body', S('c==2&%'), None, 0], ['read', 'forms'], ['read', 'params']]),
         rt([], 'plus', 'query'), rt([('a', '')], 'plus', 'direct'),
+    ] + [rt([(k, '1') for k in NAME_KEYS] + [('self', '2')], sp, via)
+         for sp in ('plus', 'quote') for via in ('query', 'forms', 'params_q', 'params_f', 'direct')] + [
+        seq([('self', 'q'), ('class', '1')], [('self', 'f'), ('cls', '2'), ('args', '3'), ('kwargs', '4'), ('mapping', '5'),
+                                              ('iterable', '6'), ('__init__', '7'), ('None', '8')],
+            ['params', 'query', 'forms', 'params']),
+        seq([(k, 'q') for k in NAME_KEYS], [(k, 'f') for k in reversed(NAME_KEYS)], ['forms', 'params', 'query']),
+        seq_ops([('self', '1')], [('self', '2'), ('other', '3')],
+                [('read', 'params'), ('copy', 'params'), ('copy', 'forms'), ('attr', 'forms', 'self'), ('attr', 'params', 'other'),
+                 ('set_body', [('cls', '1'), ('kwargs', '2'), ('E', '3'), ('F', '4')]), ('read', 'params'), ('copy', 'params')]),
+        dict(kind='reuse', via='app', mut=[], reqs=[[S('self=1&key=2'), S('self=3&value=4&default=5')]] * 2),
     ] + frame_corpus()[:8] + [ rt([('a', ''), ('a', '')], 'quote', 'query'),
         rt([(' ', ' '), ('+', '+'), ('%', '%'), ('&', '&'), ('=', '=')], 'plus', 'query'),
         rt([(' ', ' '), ('+', '+'), ('%', '%'), ('&', '&'), ('=', '=')], 'quote', 'direct'),
@@ -348,6 +358,20 @@ ALPHA = S('ab=&+% ;/?#') + [0x00, 0x0A, 0x0D, 0x7F, 0x80, 0xA0, 0xE9, 0xFF, 0x10
                              0xFFFD, 0xFFFF, 0x10000, 0x1F600, 0x10FFFF]
 
 
+# field names that collide with Python parameter names, keywords, dunders and dict-constructor parameters:
+# the containers are built with calls like FormsDict(query, **forms), so a field NAME can become a keyword argument
+NAME_KEYS = ['self', 'cls', 'args', 'kwargs', 'key', 'value', 'default', 'dict', 'None', 'True', 'class', 'def', 'lambda',
+             '__init__', '__class__', 'mapping', 'iterable', 'other', 'E', 'F', 'name', 'environ', 'config', 'copy', 'get',
+             'items', 'seq', 'object', 'type', 'kw', 'k', 'v', 'd', 'm', 'return', 'import', '__dict__', '__getattr__']
+
+
+def rand_key(rng, lo, hi):
+    """a field name: mostly free text, one time in five a Python-significant identifier"""
+    if rng.random() < 0.2:
+        return S(rng.choice(NAME_KEYS))
+    return rand_text(rng, lo, hi)
+
+
 def rand_text(rng, lo, hi):
     n = rng.randrange(lo, hi + 1)
     out = []
@@ -398,7 +422,7 @@ def rand_bytes(rng):
 def gen_seq_ops(rng):
     spelling = rng.choice(['plus', 'quote'])
     by_pairs = rng.random() < 0.75
-    pool = [rand_text(rng, 1, 3) for _ in range(rng.randrange(1, 4))]
+    pool = [rand_key(rng, 1, 3) for _ in range(rng.randrange(1, 4))]
 
     def some_pairs():
         return [[list(rng.choice(pool)), rand_text(rng, 0, 4)] for _ in range(rng.randrange(0, 4))]
@@ -460,7 +484,7 @@ MUTATIONS = ['reverse', 'sort', 'append', 'pop', 'list_clear', 'add_key', 'del_k
 def gen_misc(rng):
     k = rng.random()
     if k < 0.4:
-        pool = [rand_text(rng, 1, 3) for _ in range(rng.randrange(1, 3))]
+        pool = [rand_key(rng, 1, 3) for _ in range(rng.randrange(1, 3))]
         d0 = [[list(rng.choice(pool + [S('z')])), rand_text(rng, 0, 3)] for _ in range(rng.randrange(0, 3))]
         c = dict(kind='modes', mode=rng.choice(['append', 'setitem', 'both']), d0=d0)
         if rng.random() < 0.7:
@@ -473,7 +497,7 @@ def gen_misc(rng):
         def one():
             if rng.random() < 0.8:
                 sp = rng.choice(['plus', 'quote'])
-                pool = [rand_text(rng, 1, 2) for _ in range(2)]
+                pool = [rand_key(rng, 1, 2) for _ in range(2)]
                 mk = lambda: [[list(rng.choice(pool)), rand_text(rng, 0, 3)] for _ in range(rng.randrange(0, 5))]
                 return [S(pairs_text(mk(), sp).decode('ascii')), list(pairs_text(mk(), sp))]
             return [[x for x in rand_raw(rng) if not 0xD800 <= x < 0xE000], [x for x in rand_raw(rng) if x < 256]]
@@ -496,7 +520,7 @@ def gen(rng, n):
             yield gen_misc(rng)
         elif r < 0.1:
             if rng.random() < 0.75:
-                pool = [rand_text(rng, 1, 3) for _ in range(rng.randrange(1, 3))]
+                pool = [rand_key(rng, 1, 3) for _ in range(rng.randrange(1, 3))]
                 pairs = [[list(rng.choice(pool)), rand_text(rng, 0, 3)] for _ in range(rng.randrange(0, 4))]
                 spelling = rng.choice(['plus', 'quote'])
                 text = pairs_text(pairs, spelling)
@@ -530,14 +554,14 @@ def gen(rng, n):
             if rng.random() < 0.6:
                 yield gen_seq_ops(rng)
             elif rng.random() < 0.75:
-                pool = [rand_text(rng, 1, 3) for _ in range(rng.randrange(1, 4))]     # shared keys on both sides
+                pool = [rand_key(rng, 1, 3) for _ in range(rng.randrange(1, 4))]     # shared keys on both sides
                 yield dict(kind='seq', spelling=rng.choice(['plus', 'quote']), order=order,
                            qpairs=[[list(rng.choice(pool)), rand_text(rng, 0, 4)] for _ in range(rng.randrange(0, 5))],
                            bpairs=[[list(rng.choice(pool)), rand_text(rng, 0, 4)] for _ in range(rng.randrange(0, 5))])
             else:
                 yield dict(kind='seq', qs=rand_raw(rng), body=[x for x in rand_raw(rng) if x < 256], order=order)
         elif r < 0.5:
-            pool = [rand_text(rng, 1, 4) for _ in range(rng.randrange(1, 4))]
+            pool = [rand_key(rng, 1, 4) for _ in range(rng.randrange(1, 4))]
             pairs = [[list(rng.choice(pool)), rand_text(rng, 0, 5)] for _ in range(rng.randrange(0, 7))]
             yield dict(kind='rt', pairs=pairs, spelling=rng.choice(['plus', 'quote']),
                        via=rng.choice(['query', 'forms', 'params_q', 'params_f', 'direct']))
